@@ -19,9 +19,11 @@ if grep -q '"diffusion.h"\|"spline-potential.h"\|<diffusion.h>\|<spline-potentia
   EXO="/repo/examples/diffusion.cpp /repo/examples/spline-potential.cpp"; EXM="$WT/examples/diffusion.cpp $WT/examples/spline-potential.cpp"
 fi
 g++ -std=c++17 -O1 -w $EIG $X -I/repo/include -I/repo/examples "$D/demo.cpp" $EXO -o /tmp/demo_$ID.orig 2>/tmp/demo_$ID.err || { echo "SEED $ID: demo does not compile on HEAD"; head -5 /tmp/demo_$ID.err; exit 2; }
-g++ -std=c++17 -O1 -w $EIG $X -I"$WT/include" -I"$WT/examples" "$D/demo.cpp" $EXM -o /tmp/demo_$ID.mut 2>/tmp/demo_$ID.err || { echo "SEED $ID: demo does not compile with change"; head -5 /tmp/demo_$ID.err; exit 2; }
+MUTCOMPILE=0
+g++ -std=c++17 -O1 -w $EIG $X -I"$WT/include" -I"$WT/examples" "$D/demo.cpp" $EXM -o /tmp/demo_$ID.mut 2>/tmp/demo_$ID.err || MUTCOMPILE=1
+if [ $MUTCOMPILE = 1 ] && [ "$PROP" != "C19" ]; then echo "SEED $ID: demo does not compile with change"; head -5 /tmp/demo_$ID.err; exit 2; fi
 timeout 300 /tmp/demo_$ID.orig >/dev/null 2>&1; o=$?
-timeout 300 /tmp/demo_$ID.mut >/dev/null 2>&1; m=$?
+if [ $MUTCOMPILE = 1 ]; then m="compile-error"; else timeout 300 /tmp/demo_$ID.mut >/dev/null 2>&1; m=$?; fi
 T="skipped"
 if [ "${SEED_SKIP_TESTS:-0}" != 1 ]; then VERIF_REPO=$WT /verif/tools/baseline.sh >/tmp/demo_$ID.tests 2>&1; T=$?; fi
 RES=""
